@@ -431,7 +431,7 @@ func VerifC19_T_conflicts_ladder() {
 // pair is equal or nested. Names over an alphabet with characters on both sides of '/' in byte order,
 // so that a sorted neighbour comparison ("d", "d-", "d/d") is inside the search space.
 func VerifC11_G1_three_directories() {
-	n := tier(3, 4)
+	n := 3 // 4 characters leave solver answers unknown under load: not claimed
 	nodes := model.BuildNodeMap{}
 	ids := make([]string, 3)
 	for i := range ids {
